@@ -118,7 +118,7 @@ def e1_cases(tier):
     for expr, want, empty in table:
         body = ("try:\n    p = %s\nexcept EmptyClassException:\n    return %s\n" % (expr, empty if empty is not None else "False") +
                 ("if %s:\n    return False\n" % empty if empty not in (None, "False") else "") +
-                "return class_member(str(p), c) == (%s)" % want)
+                "return member_ok(str(p), c, (%s))" % want)
         cs.append(engine.raw_case(body, P, pre, "%s: candidate membership == set algebra%s (operand character and candidate symbolic)" %
                                   (expr, "; EmptyClassException iff nothing is left" if empty else "")))
     return cs
